@@ -874,6 +874,65 @@ fn wrappers(ctx: &Ctx, c: &mut Collector) {
     int_int!(u8 => u8, u16, u32, u64, u128, f32, f64);
     int_int!(u16 => u8, u16, u32, u64, u128, f32, f64);
     int_int!(u32 => u8, u16, u32, u64, u128, f32, f64);
+    // `From` impls between component formats (Rgb / Rgba u8 <-> f32 <-> f64, Lms / Lmsa f32 <-> f64): the same
+    // values as into_format, on every 8-bit rounding tie and both neighbours (f64: relative 1e-9 and 1 ulp; f32: 1 ulp)
+    {
+        let mut f64s: Vec<f64> = lat.iter().map(|&x| x as f64).collect();
+        let mut f32s: Vec<f32> = lat.clone();
+        for k in 0..255u32 {
+            let t = (k as f64 + 0.5) / 255.0;
+            f64s.extend([t, t * (1.0 + 1e-9), t * (1.0 - 1e-9), f64::from_bits(t.to_bits() + 1), f64::from_bits(t.to_bits() - 1), k as f64 / 255.0]);
+            let t32 = t as f32;
+            f32s.extend([t32, f32::from_bits(t32.to_bits() + 1), f32::from_bits(t32.to_bits() - 1), k as f32 / 255.0]);
+        }
+        let e8_64 = |x: f64| <u8 as FromStimulus<f64>>::from_stimulus(x);
+        let e8_32 = |x: f32| <u8 as FromStimulus<f32>>::from_stimulus(x);
+        for (i, &x) in f64s.iter().enumerate() {
+            let y = f64s[(i * 7 + 3) % f64s.len()];
+            let r = Srgb::<u8>::from(Srgb::<f64>::new(x, y, x));
+            cmp!("From/Rgb<f64>->Rgb<u8>", (r.red, r.green, r.blue), (e8_64(x), e8_64(y), e8_64(x)), (x, y));
+            let r = palette::Srgba::<u8>::from(palette::Srgba::<f64>::new(x, y, x, y));
+            cmp!("From/Rgba<f64>->Rgba<u8>", (r.red, r.green, r.blue, r.alpha), (e8_64(x), e8_64(y), e8_64(x), e8_64(y)), (x, y));
+            let r = LinSrgb::<u8>::from(LinSrgb::<f64>::new(x, y, x));
+            cmp!("From/LinRgb<f64>->LinRgb<u8>", (r.red, r.green, r.blue), (e8_64(x), e8_64(y), e8_64(x)), (x, y));
+            let r = Srgb::<f32>::from(Srgb::<f64>::new(x, y, x));
+            cmp!("From/Rgb<f64>->Rgb<f32>", (r.red.to_bits(), r.green.to_bits(), r.blue.to_bits()), ((x as f32).to_bits(), (y as f32).to_bits(), (x as f32).to_bits()), (x, y));
+            let r = palette::Srgba::<f32>::from(palette::Srgba::<f64>::new(x, y, x, y));
+            cmp!("From/Rgba<f64>->Rgba<f32>", (r.red.to_bits(), r.alpha.to_bits()), ((x as f32).to_bits(), (y as f32).to_bits()), (x, y));
+            let m = VonKriesLms::<D65, f32>::from(VonKriesLms::<D65, f64>::new(x, y, x));
+            cmp!("From/Lms<f64>->Lms<f32>", (m.long.to_bits(), m.medium.to_bits(), m.short.to_bits()), ((x as f32).to_bits(), (y as f32).to_bits(), (x as f32).to_bits()), (x, y));
+            let m = VonKriesLmsa::<D65, f32>::from(VonKriesLmsa::<D65, f64>::new(x, y, x, y));
+            cmp!("From/Lmsa<f64>->Lmsa<f32>", (m.long.to_bits(), m.alpha.to_bits()), ((x as f32).to_bits(), (y as f32).to_bits()), (x, y));
+        }
+        for (i, &x) in f32s.iter().enumerate() {
+            let y = f32s[(i * 7 + 3) % f32s.len()];
+            let r = Srgb::<u8>::from(Srgb::<f32>::new(x, y, x));
+            cmp!("From/Rgb<f32>->Rgb<u8>", (r.red, r.green, r.blue), (e8_32(x), e8_32(y), e8_32(x)), (x, y));
+            let r = palette::Srgba::<u8>::from(palette::Srgba::<f32>::new(x, y, x, y));
+            cmp!("From/Rgba<f32>->Rgba<u8>", (r.red, r.green, r.blue, r.alpha), (e8_32(x), e8_32(y), e8_32(x), e8_32(y)), (x, y));
+            let r = Srgb::<f64>::from(Srgb::<f32>::new(x, y, x));
+            cmp!("From/Rgb<f32>->Rgb<f64>", (r.red.to_bits(), r.green.to_bits(), r.blue.to_bits()), ((x as f64).to_bits(), (y as f64).to_bits(), (x as f64).to_bits()), (x, y));
+            let r = palette::Srgba::<f64>::from(palette::Srgba::<f32>::new(x, y, x, y));
+            cmp!("From/Rgba<f32>->Rgba<f64>", (r.red.to_bits(), r.alpha.to_bits()), ((x as f64).to_bits(), (y as f64).to_bits()), (x, y));
+            let m = VonKriesLms::<D65, f64>::from(VonKriesLms::<D65, f32>::new(x, y, x));
+            cmp!("From/Lms<f32>->Lms<f64>", (m.long.to_bits(), m.medium.to_bits(), m.short.to_bits()), ((x as f64).to_bits(), (y as f64).to_bits(), (x as f64).to_bits()), (x, y));
+            let m = VonKriesLmsa::<D65, f64>::from(VonKriesLmsa::<D65, f32>::new(x, y, x, y));
+            cmp!("From/Lmsa<f32>->Lmsa<f64>", (m.long.to_bits(), m.alpha.to_bits()), ((x as f64).to_bits(), (y as f64).to_bits()), (x, y));
+        }
+        for v in 0..=255u8 {
+            let w = 255 - v;
+            let d32 = |x: u8| <f32 as FromStimulus<u8>>::from_stimulus(x).to_bits();
+            let d64 = |x: u8| <f64 as FromStimulus<u8>>::from_stimulus(x).to_bits();
+            let r = Srgb::<f32>::from(Srgb::<u8>::new(v, w, v));
+            cmp!("From/Rgb<u8>->Rgb<f32>", (r.red.to_bits(), r.green.to_bits(), r.blue.to_bits()), (d32(v), d32(w), d32(v)), (v, w));
+            let r = palette::Srgba::<f32>::from(palette::Srgba::<u8>::new(v, w, v, w));
+            cmp!("From/Rgba<u8>->Rgba<f32>", (r.red.to_bits(), r.alpha.to_bits()), (d32(v), d32(w)), (v, w));
+            let r = Srgb::<f64>::from(Srgb::<u8>::new(v, w, v));
+            cmp!("From/Rgb<u8>->Rgb<f64>", (r.red.to_bits(), r.green.to_bits(), r.blue.to_bits()), (d64(v), d64(w), d64(v)), (v, w));
+            let r = palette::Srgba::<f64>::from(palette::Srgba::<u8>::new(v, w, v, w));
+            cmp!("From/Rgba<u8>->Rgba<f64>", (r.red.to_bits(), r.alpha.to_bits()), (d64(v), d64(w)), (v, w));
+        }
+    }
     // hue-bearing types: float -> float
     for &a in &lat {
         for &b in &[0.0f32, 0.3, 1.0] {
@@ -908,7 +967,7 @@ fn wrappers(ctx: &Ctx, c: &mut Collector) {
         }
     }
     c.add(sub, n, n, n, n);
-    c.exhaustive(sub, true, "16 component values (incl. out of range, infinities) × 4 × {Rgb, LinRgb, Rgba, Luma, Lumaa, Alpha, Lms, Lmsa, Hsv, Hsl, Hwb, Hsva} × {u8..u128,f64}, into_format and from_format, colour and alpha to the same and to different formats (T,u16 / u8,T / alpha kept); integer sources: all 256 u8 codes / 8 codes of u16, u32 × {Rgb, Rgba, Luma, Lumaa, Lms} → {u8..u128, f32, f64}: wrapper ≡ component function, bitwise");
+    c.exhaustive(sub, true, "16 component values (incl. out of range, infinities) × 4 × {Rgb, LinRgb, Rgba, Luma, Lumaa, Alpha, Lms, Lmsa, Hsv, Hsl, Hwb, Hsva} × {u8..u128,f64}, into_format and from_format, colour and alpha to the same and to different formats (T,u16 / u8,T / alpha kept); the 20 `From` impls between Rgb / Rgba / Lms / Lmsa formats on every 8-bit tie and its neighbours; integer sources: all 256 u8 codes / 8 codes of u16, u32 × {Rgb, Rgba, Luma, Lumaa, Lms} → {u8..u128, f32, f64}: wrapper ≡ component function, bitwise");
 }
 
 fn replay(c: &mut Collector, rep: &Value) {
